@@ -10,3 +10,14 @@ package types
 //@ func ParseUndelegationRecordKey
 //@   flag assumed
 //@   ensures err == nil ==> field != nil && field.BlockHeight == urkey_height(key) && field.LzNonce == urkey_nonce(key)
+
+// C18 (the exported genesis of a reachable state passes validation): an undelegation record as the keeper writes it -
+// ids and operator well-formed, TxHash the hex rendering of the 32-byte transaction hash WITH its "0x" prefix
+// (UndelegateFrom stores params.TxHash.String()), pending, completion not before submission, owed <= undelegated -
+// is accepted.
+//@ func (GenesisState).ValidateUndelegations$1
+//@   requires !isnil(undelegation.Amount) && !isnil(undelegation.ActualCompletedAmount)
+//@   flag pure=ValidateIDAndOperator
+//@   flag noframe
+//@   ensures[C18.vu.accept] res_ValidateIDAndOperator_0 == nil && is_hashstr(undelegation.TxHash) && undelegation.IsPending &&
+//@        undelegation.CompleteBlockNumber >= undelegation.BlockNumber && val(undelegation.ActualCompletedAmount) <= val(undelegation.Amount) ==> err == nil
